@@ -81,8 +81,15 @@ def batched_rows(ck, tier, seed):
              "Flow": Flow(Shift(), normal.StandardNormal([1])),
              "Flow(embedding 3c+7, ConditionalDiagonalNormal)": Flow(Ident(), normal.ConditionalDiagonalNormal([1], context_encoder=Enc()),
                                                                      embedding_net=Emb())}
+    class EncS(nn.Module):      # scalar events: parameters [rows, 2] -> mean 1000 * id, log-std 0
+        def forward(self, c):
+            return torch.cat([1000.0 * c, torch.zeros_like(c)], 1)
+    dists["ConditionalDiagonalNormal(scalar event)"] = normal.ConditionalDiagonalNormal([], context_encoder=EncS())
+    dists["Flow(scalar event)"] = None
     ns = [1, 2, 3, 5, 6, 7] if tier == "quick" else list(range(1, 10))
     for name, d in dists.items():
+        if d is None:
+            continue
         for rows in (1, 2, 3, 4):
             ctx = torch.arange(1, rows + 1, dtype=torch.float32).reshape(rows, 1)
             for n_, bs in itertools.product(ns, [None, 1, 2, 3, 4, 8]):
@@ -90,9 +97,13 @@ def batched_rows(ck, tier, seed):
                 r = attempt(d.sample, n_, ctx, bs) if bs is not None else attempt(d.sample, n_, ctx)
                 ck.case(("rows", name, rows, n_, bs), nontrivial=rows > 1 and n_ > 1)
                 case = {"search": "batched-rows", "cls": name, "rows": rows, "n": n_, "bs": bs}
-                if r[0] != "ok" or list(r[1].shape) != [rows, n_, 1]:
-                    continue            # shapes are reported by the shape search
-                ids = torch.round(r[1][..., 0] / 1000.0)
+                scalar = "scalar event" in name
+                if r[0] != "ok" or list(r[1].shape) != ([rows, n_] if scalar else [rows, n_, 1]):
+                    if scalar:
+                        ck.finding("sample-shape:scalar-event:%s" % ("batched" if bs is not None else "plain"),
+                                   "%s.sample(%d, %d rows, batch_size=%s) -> %s" % (name, n_, rows, bs, list(r[1].shape) if r[0] == "ok" else r[1:]), case)
+                    continue            # other shapes are reported by the shape search
+                ids = torch.round((r[1] if scalar else r[1][..., 0]) / 1000.0)
                 want = ctx.expand(rows, n_)
                 if "embedding" in name:
                     want = 3.0 * want + 7.0
